@@ -781,6 +781,24 @@ def r_oppure(repo, tier):
                 elif isinstance(t, ast.Subscript) and isinstance(t.value, ast.Name) and t.value.id != root:
                     # in-place part assignment x[i:j] = ... on an object read out of the owned node (x = e.l): mutates a child
                     if prov.get(t.value.id) in ("container", "param"):
+                        # the provenance table is the worst case over all assignments of the name; a name that is re-bound to
+                        # a fresh object before this store (`a, c = e.l.l, e.l.r` ... `c = comp(n); c[0:k] = ..`) is decided
+                        # by the definitions that reach the store
+                        from ..cfg import CFG as _CFG, reaching_defs as _rd
+                        g_ = _CFG(f.node, may_raise=lambda x: False)
+                        nd_ = g_.stmt_node.get(id(n))
+                        if nd_ is not None:
+                            rd_ = _rd(g_, t.value.id).get(nd_.id, frozenset())
+                            vals = []
+                            for did in rd_:
+                                d_ = g_.nodes[did].ast
+                                if isinstance(d_, ast.Assign) and len(d_.targets) == 1 and isinstance(d_.targets[0], ast.Name) and d_.targets[0].id == t.value.id:
+                                    vals.append(d_.value)
+                                else:
+                                    vals = None
+                                    break
+                            if vals and all(isinstance(v_, ast.Call) and ((isinstance(v_.func, ast.Name) and v_.func.id in CONSTRUCTORS) or (isinstance(v_.func, ast.Attribute) and v_.func.attr == "copy")) for v_ in vals):
+                                continue
                         out.inst("%s::child-part-store" % f.key, None)
                         out.report(f.file, f.dqual, "part store %s" % norm(t), n.lineno, "in-place part assignment on %s, an operand read out of the node being simplified: the operand object (possibly shared with other expressions) is turned into the result" % t.value.id)
     return out
